@@ -329,6 +329,10 @@ class Executor:
                 else:
                     raise ToolLimit('write to Element.%s (text/attrib/tail are modelled as never written)' % attr)
             return out
+        if isinstance(o, SOpaque) and o.kind == 'namespace':
+            o.fields = dict(o.fields)
+            o.fields[attr] = v
+            return [(st, None)]
         raise ToolLimit('setattr on %r' % (o,))
 
     def setitem(self, st, o, key, v, tgt, fx):
@@ -562,7 +566,9 @@ class Executor:
         lp.k, lp.st = z3.IntVal(0), st
         # ghost state variables: initial values (ghost code, affects no program variable)
         for gname, gval in inv.ghost_init(cx, lp).items():
-            st.ghost[gname] = gval
+            gc = self.W.fresh('g_' + gname, gval.sort())
+            st.assume(gc == gval)
+            st.ghost[gname] = gc
         for name, f in inv.invariant(cx, lp):
             self.oblige(st, 'inv-init#%d.%s' % (ordinal, name), f, kind='inv')
         mods = assigned_names(stmt.body) | assigned_names([ast.Expr(value=stmt.target)]) | \
@@ -599,6 +605,7 @@ class Executor:
         sh.trace.append('loop%d' % ordinal)
         cur = seq.elem(k)
         lp.cur = cur
+        sh.locals['$k%d' % ordinal] = SInt(k)      # index of the iteration, visible to the invariants of nested loops
         for s2, c in self.assign(stmt.target, cur, sh, fx):
             if c is not None:
                 out.append((s2, c))
@@ -609,7 +616,9 @@ class Executor:
                     lpg.k, lpg.st, lpg.cur, lpg.head = k, s3, cur, sh
                     # ghost code at the end of the iteration: assignments to ghost state variables
                     for gname, gval in inv.ghost_update(cx, lpg).items():
-                        s3.ghost[gname] = gval
+                        gc = self.W.fresh('g_' + gname, gval.sort())      # name the new value (keeps terms pattern-friendly)
+                        s3.assume(gc == gval)
+                        s3.ghost[gname] = gc
                     self.obligations.append(Obligation(self.target, 'iteration_end_reachable#%d[%s]' % (ordinal, self.pathname(s3)),
                                                        s3.facts, z3.BoolVal(False), s3.versions, kind='cover',
                                                        path=self.pathname(s3), expect='not-unsat'))
@@ -668,6 +677,13 @@ class Executor:
             r = SList(n, lambda k, f=f: SNode(f(k)), desc='havoc ' + name)
             r.fun = f
             r.elemkind = 'node'
+            return r
+        if kind == 'strlist':
+            f = self.W.fresh_fun(name + '_elem', L.I, Str)
+            n = self.W.fresh(name + '_len', L.I)
+            r = SList(n, lambda k, f=f: SStr(f(k)), desc='havoc ' + name)
+            r.fun = f
+            r.elemkind = 'str'
             return r
         if kind == 'optreal':
             return SReal(self.W.fresh(name, L.R), self.W.fresh(name + '_none', L.B))
